@@ -1107,6 +1107,27 @@ impl<'tcx> Cx<'tcx> {
         }
     }
 
+    /// `t` as a statement about a discriminant: (X, c, pol) meaning t <=> (X == c) when pol, t <=> (X != c) otherwise
+    fn discr_fact(&self, t: T) -> Option<(T, u128, bool)> {
+        match terms::get(t) {
+            terms::Term::App(op, a) if op == "not" && a.len() == 1 => self.discr_fact(a[0]).map(|(x, c, p)| (x, c, !p)),
+            terms::Term::App(op, a) if (op == "eq" || op == "ne") && a.len() == 2 => {
+                let pol = op == "eq";
+                for (x, c) in [(a[0], a[1]), (a[1], a[0])] {
+                    if let (terms::Term::App(xo, _), terms::Term::CInt(ci)) = (terms::get(x), terms::get(c)) {
+                        if xo == "discr" {
+                            if let Ok(v) = ci.parse::<u128>() {
+                                return Some((x, v, pol));
+                            }
+                        }
+                    }
+                }
+                None
+            }
+            _ => None,
+        }
+    }
+
     fn bool_term(&self, t: T) -> T {
         t
     }
@@ -1317,7 +1338,26 @@ impl<'tcx> Cx<'tcx> {
                             let owd = &fr.body.basic_blocks[ow];
                             let ow_unreach = matches!(owd.terminator().kind, TerminatorKind::Unreachable) && owd.statements.is_empty();
                             if dty.is_bool() && arms.len() == 1 && arms[0].0 == 0 {
+                                // a test of a discriminant already settled on this path (`is_none()` before `unwrap()`)
+                                let fact = self.discr_fact(t);
+                                if let Some((x, c, pol)) = fact {
+                                    let known = st.decided.iter().find(|(d, _)| *d == x).map(|(_, v)| *v == c).or_else(|| if st.excluded.iter().any(|(d, v)| *d == x && *v == c) { Some(false) } else { None });
+                                    if let Some(is_eq) = known {
+                                        let truth = is_eq == pol;
+                                        self.goto(&mut st, if truth { ow } else { arms[0].1 });
+                                        continue;
+                                    }
+                                }
                                 let mut s_then = st.clone();
+                                if let Some((x, c, pol)) = fact {
+                                    if pol {
+                                        s_then.decided.push((x, c));
+                                        st.excluded.push((x, c));
+                                    } else {
+                                        s_then.excluded.push((x, c));
+                                        st.decided.push((x, c));
+                                    }
+                                }
                                 s_then.decided.push((t, 1));
                                 self.goto(&mut s_then, ow);
                                 let o_then = self.run_from(&mut s_then, base);
